@@ -158,17 +158,23 @@ func c03r1(c *Ctx) {
 				continue
 			}
 			// quantity = the value stored into the Value field of the token literal built by the entry point
-			e := c.P.Env(r.Entry)
 			var qty string
-			for _, b := range r.Entry.Blocks {
-				for _, in := range b.Instrs {
-					if st, ok := in.(*ssa.Store); ok {
-						if fa, ok := st.Addr.(*ssa.FieldAddr); ok && isFieldOf(fa, "esdt.ESDigitalToken", "Value") {
-							if _, isAlloc := fa.X.(*ssa.Alloc); isAlloc {
-								qty = e.Term(st.Val)
-							}
+			isValueStore := func(in ssa.Instruction) (string, bool) {
+				if st, ok := in.(*ssa.Store); ok {
+					if fa, ok := st.Addr.(*ssa.FieldAddr); ok && isFieldOf(fa, "esdt.ESDigitalToken", "Value") {
+						if _, isAlloc := fa.X.(*ssa.Alloc); isAlloc {
+							return "Value", true
 						}
 					}
+				}
+				return "", false
+			}
+			// in the entry point or in a phase function below it; readers that build a default entry do not count (their
+			// literal is not what gets its quantity from the arguments)
+			for _, vs := range c.P.EffectSites(r.Entry, "c03qty", isValueStore) {
+				t := vs.Env.Term(vs.In.(*ssa.Store).Val)
+				if strings.Contains(t, ".VMInput.Arguments[") {
+					qty = t
 				}
 			}
 			if qty == "" {
